@@ -1,14 +1,21 @@
 package main
 
 import (
+	"bytes"
+	"context"
 	"errors"
 	"fmt"
+	"net"
 	"sort"
 	"strings"
+	"time"
 
+	"verif/netsim"
 	"verif/vsched"
+	"verif/vstore"
 
 	bitcoin_reader "github.com/tokenized/bitcoin_reader"
+	"github.com/tokenized/bitcoin_reader/headers"
 	"github.com/tokenized/pkg/wire"
 )
 
@@ -82,6 +89,81 @@ func msgChannelScenario(capacity int, adders [][]uint64, closers int) func() fun
 	}
 }
 
+// byteConn is a connection whose peer has sent exactly the given bytes.
+type byteConn struct{ r *bytes.Reader }
+
+func (c *byteConn) Read(b []byte) (int, error)         { return c.r.Read(b) }
+func (c *byteConn) Write(b []byte) (int, error)        { return len(b), nil }
+func (c *byteConn) Close() error                       { return nil }
+func (c *byteConn) LocalAddr() net.Addr                { return nil }
+func (c *byteConn) RemoteAddr() net.Addr               { return nil }
+func (c *byteConn) SetDeadline(t time.Time) error      { return nil }
+func (c *byteConn) SetReadDeadline(t time.Time) error  { return nil }
+func (c *byteConn) SetWriteDeadline(t time.Time) error { return nil }
+
+// dispatchScenario: the real message dispatcher (handleMessage and the handler it selects) working
+// through a peer's messages while the rest of the program uses the same node: a block is requested
+// and cancelled, handlers are replaced. Under the scheduler: no panic, no deadlock. Its main use is
+// the free-running race-detector pass over the same body: the handler table is shared between the
+// connection's reader and every caller of the node's API, and an unsynchronised access to it is a
+// concurrent map access, which aborts the process.
+func dispatchScenario(letters []string, api string) func() func() []string {
+	return func() func() []string {
+		store := vstore.New()
+		repo := headers.NewRepository(headers.DefaultConfig(), store)
+		repo.InitializeWithGenesis()
+		peers := bitcoin_reader.NewPeerRepository(store, "")
+		cfg := bitcoin_reader.DefaultConfig()
+		node := bitcoin_reader.NewBitcoinNode("127.0.0.1:8333", "/verif/", cfg, repo, peers)
+		txm := bitcoin_reader.NewTxManager(10 * time.Second)
+		proc := &recProc{}
+		txm.SetTxProcessor(proc)
+		node.SetTxManager(txm)
+		node.VerifOpenOutgoing()
+		interrupt := make(chan interface{})
+		node.VerifSetInterrupt(interrupt)
+		if err := node.VerifAccept(bg); err != nil {
+			panic(err)
+		}
+		var stream []byte
+		for _, l := range letters {
+			stream = append(stream, netsim.Letters[l]...)
+		}
+		conn := &byteConn{r: bytes.NewReader(stream)}
+		handled := 0
+		var handleErr error
+		vsched.GoNamed("reader", func() {
+			for range letters {
+				if err := node.VerifHandleMessage(bg, conn); err != nil {
+					handleErr = err
+					return
+				}
+				handled++
+			}
+		})
+		blk := mkBlock(1, 1)
+		vsched.GoNamed("api", func() {
+			switch api {
+			case "request+cancel":
+				node.RequestBlock(bg, blk.hash, func(ctx context.Context, h *wire.BlockHeader, n uint64, ch <-chan *wire.MsgTx) error {
+					for {
+						if _, ok := vsched.Recv2(ch); !ok {
+							return nil
+						}
+					}
+				}, func(ctx context.Context) {})
+				node.CancelBlockRequest(bg, blk.hash)
+			case "request-headers":
+				node.RequestHeaders(bg)
+			}
+		})
+		return func() []string {
+			label(fmt.Sprintf("handled=%d err=%v", handled, handleErr != nil))
+			return nil
+		}
+	}
+}
+
 func c15Scenarios(thorough bool) []*scenario {
 	bounds := []int{0, 1, 2}
 	if thorough {
@@ -102,6 +184,17 @@ func c15Scenarios(thorough bool) []*scenario {
 	var r []*scenario
 	for _, s := range list {
 		r = append(r, &scenario{name: s.name, bounds: bounds, body: msgChannelScenario(s.capacity, s.adders, s.closers), steps: 5000})
+	}
+	for _, d := range []struct {
+		name    string
+		letters []string
+		api     string
+	}{
+		{"dispatch/extended-tx+block|request+cancel", []string{"extmsg/tx[tx0]", "extmsg/block[block1]", "extmsg/unknown[0]"}, "request+cancel"},
+		{"dispatch/classic-tx+inv+ping|request+cancel", []string{"tx[tx0]", "inv[tx0]", "ping"}, "request+cancel"},
+		{"dispatch/headers+addr|request-headers", []string{"headers[block1]", "addr[1]"}, "request-headers"},
+	} {
+		r = append(r, &scenario{name: d.name, bounds: []int{0, 1}, body: dispatchScenario(d.letters, d.api), steps: 20000})
 	}
 	return r
 }
